@@ -12,8 +12,7 @@ Trace_Encoding     validates what the real code did (stream construction, every 
 """
 import io
 import json
-import os
-import sys
+import zlib
 
 from .. import core, corpus, gen_enc
 from ..tok import enc as cps
@@ -22,7 +21,7 @@ PRESCAN_DEFECTS = ["prescan-comment-needs-second-dashes", "prescan-meta-slash", 
                    "prescan-lt-skips-next-byte", "prescan-endtag-name-offset", "prescan-duplicate-attr",
                    "prescan-meta-early-return", "prescan-invalid-charset-ignored", "prescan-x-user-defined",
                    "prescan-content-semicolon", "prescan-charset-retry"]
-ENCODING_DEFECTS = ["bom-utf32-shadows-utf16", "latemeta-utf16-no-switch"]
+ENCODING_DEFECTS = ["bom-utf32-shadows-utf16", "latemeta-utf16-no-switch", "bom-seek-past-end"]
 DEFECTS = PRESCAN_DEFECTS + ENCODING_DEFECTS
 KW = (("o", "override_encoding"), ("t", "transport_encoding"), ("p", "same_origin_parent_encoding"),
       ("l", "likely_encoding"), ("d", "default_encoding"))
@@ -135,23 +134,43 @@ def kw_of(labels):
     return {full: labels[k] for k, full in KW if k in labels}
 
 
-def observe(data, labels):
+class Pipe(object):
+    """a byte source that can only be read (html5lib wraps it in its BufferedStream)"""
+
+    def __init__(self, data):
+        self._b = io.BytesIO(data)
+
+    def read(self, n=-1):
+        return self._b.read(n)
+
+
+def source(data, mode):
+    return data if mode == "bytes" else io.BytesIO(data) if mode == "bytesio" else Pipe(data)
+
+
+def observe(data, labels, mode="bytes"):
     """run the real code on (bytes, *_encoding arguments); returns the trace record (k = "parse") or None when
     the parse of these bytes fails for reasons that are not C06's (same exception on the decoded text)"""
     import webencodings
     from html5lib._inputstream import HTMLBinaryInputStream
     install_hooks()
     kw = kw_of(labels)
-    s = HTMLBinaryInputStream(data, useChardet=False, **kw)
-    tr = {"k": "parse", "data": list(data[:TRACE_DATA_MAX]),
-          "kw": {k: (cps(labels.get(k)) if k in labels else cps("windows-1252" if k == "d" else None)) for k, _ in KW},
-          "e0": s.charEncoding[0].name, "c0": s.charEncoding[1], "skip0": min(s.rawStream.tell(), len(data))}
+    tr = {"k": "parse", "data": list(data[:TRACE_DATA_MAX]), "src": mode, "raised": False,
+          "kw": {k: (cps(labels.get(k)) if k in labels else cps("windows-1252" if k == "d" else None)) for k, _ in KW}}
+    try:
+        s = HTMLBinaryInputStream(source(data, mode), useChardet=False, **kw)
+    except AssertionError:
+        try:
+            parse_tree(source(data, mode), useChardet=False, **kw)
+        except AssertionError:
+            tr["raised"] = True
+            return tr
+        raise
+    tr.update({"e0": s.charEncoding[0].name, "c0": s.charEncoding[1], "skip0": min(s.rawStream.tell(), len(data))})
     _REC["ev"] = []
     err = None
     try:
-        p, doc = parse_tree(data, useChardet=False, **kw)
-    except RecursionError as e:
-        err = e
+        p, doc = parse_tree(source(data, mode), useChardet=False, **kw)
     except Exception as e:        # noqa
         err = e
     finally:
@@ -527,6 +546,8 @@ FIXED = [
     (b"<meta charset=koi8-r" + b" " * 1003 + b">", {}), (b"<meta charset=koi8-r" + b" " * 1004 + b">", {}),
     (b"x" * 1004 + b"<meta charset=koi8-r>", {}), (b"x" * 1003 + b"<meta charset=koi8-r>", {}), (b"x" * 1005 + b"<meta charset=koi8-r>", {}),
     (b"\xff\xfe\x00\x00" + b"x" * 1004 + b"<meta charset=koi8-r>", {}), (b"\xff\xfe\x00\x00" + b"x" * 1000 + b"<meta charset=koi8-r>", {}),
+    (b"\xff\xfe", {}, "pipe"), (b"\xfe\xff", {"o": "koi8-r"}, "pipe"), (b"\xef\xbb\xbf", {}, "pipe"), (b"\xff\xfe", {}, "bytesio"),
+    (b"\xff\xfe\x00\x00<p>x", {"o": "utf-8"}, "pipe"), (b"<!--" + b"x" * 1100 + b"--><meta charset=koi8-r>", {}, "pipe"),
 ]
 
 
@@ -548,11 +569,12 @@ def self_check(ctx):
 
 
 def _obs_item(item):
-    data, labels = item
+    data, labels = item[0], item[1]
     try:
-        return observe(data, labels)
+        return observe(data, labels, item[2] if len(item) > 2 else "bytes")
     except Exception as e:      # noqa: an exception of the observed code on the stream level
-        return {"error": "stream/observe raised " + repr(e), "data": list(data[:TRACE_DATA_MAX]), "labels": labels}
+        return {"error": "stream/observe raised " + repr(e), "data": list(data[:TRACE_DATA_MAX]), "labels": labels,
+                "src": item[2] if len(item) > 2 else "bytes"}
 
 
 def run(ctx):
@@ -596,6 +618,7 @@ def run(ctx):
             ctx.violation("theorem %s fails on the intended prescan (%s)" % (r.violated, kind), {"tlc": r.stdout_path})
             return
         recs = [x for x in core.tlc.iter_records(r.stdout_path) if isinstance(x, dict) and "k" in x]
+        recs.sort(key=lambda x: (x["pad"], x["bom4"], x["ids"]))          # TLC's output order depends on worker scheduling
         if kind == "attrlist":
             continue
         for rec, p in zip(recs, core.parallel(check_prescan, recs)):
@@ -635,7 +658,9 @@ def run(ctx):
             ctx.violation("structural theorem %s fails on the code-faithful encoding lifecycle (%s)" % (r.violated, mode), {"tlc": r.stdout_path})
             return
         recs = [x for x in core.tlc.iter_records(r.stdout_path) if isinstance(x, dict) and "args" in x]
-        items = [(rec, (ctx.seed << 20) ^ i) for i, rec in enumerate(recs)]
+        keyed = sorted((json.dumps(x, sort_keys=True), x) for x in recs)
+        recs = [x for _, x in keyed]
+        items = [(x, (ctx.seed << 32) ^ zlib.crc32(k.encode())) for k, x in keyed]
         results = core.parallel(check_vector, items, chunk=500)
         step = max(1, len(recs) // (400 if q else 6000))
         for i, (rec, (p, tr)) in enumerate(zip(recs, results)):
@@ -646,7 +671,7 @@ def run(ctx):
                 ctx.nontriv(("vector", json.dumps(rec, sort_keys=True)))
             if tr is not None and i % step == 0:
                 traces.append(tr)
-                origin.append(("mc-vector", rec))
+                origin.append(("mc-vector", concretize(rec, __import__("random").Random(items[i][1]))))
         if recs:
             m = recs[len(recs) // 3]
             ctx.sample({"spec_to_code": "MC_Encoding/" + mode, "bom": m["bom"], "args": m["args"], "decls": m["decls"], "nwin": m["nwin"],
@@ -662,12 +687,13 @@ def run(ctx):
 
     # ---- 3. code -> spec ---------------------------------------------------------------------------------------
     jobs = []
-    for data, labels in FIXED:
-        jobs.append((data, labels))
+    for job in FIXED:
+        jobs.append(job)
     for b in corpus_docs(ctx, 150 if q else 1500):
         jobs.append((b, rnd_labels(ctx.rng) if ctx.rng.random() < 0.6 else {}))
     for _ in range(1500 if q else 22000):
-        jobs.append((rnd_doc(ctx.rng), rnd_labels(ctx.rng) if ctx.rng.random() < 0.55 else {}))
+        jobs.append((rnd_doc(ctx.rng), rnd_labels(ctx.rng) if ctx.rng.random() < 0.55 else {},
+                     ctx.rng.choice(["bytes", "bytes", "bytes", "bytes", "bytesio", "pipe"])))
     pending = [i for i, t in enumerate(traces) if t is None]
     pend_jobs = [origin[i][1] for i in pending]
     res = core.parallel(_obs_item, pend_jobs + jobs, chunk=300)
@@ -685,22 +711,27 @@ def run(ctx):
         if t is None:
             skipped += 1
         elif "error" in t:
-            ctx.violation("the real code raised on byte input: %s" % t["error"], {"kind": "bytes", "data": t["data"], "labels": t.get("labels")})
+            ctx.violation("the real code raised on byte input: %s" % t["error"],
+                          {"kind": "bytes", "data": t["data"], "labels": t.get("labels"), "src": t.get("src", "bytes")})
         else:
             good.append(t)
             gorigin.append(o)
     ctx.notes["inputs_skipped_parse_fails_on_text_too"] = skipped
     for t in good:
-        if t["k"] == "parse" and (t["ev"] or t["e"] != "windows-1252" or t["c"] != "tentative"):
+        if t["k"] == "parse" and not t["raised"] and (t["ev"] or t["e"] != "windows-1252" or t["c"] != "tentative"):
             ctx.nontriv(("trace", t["e0"], t["c0"], t["e"], t["c"], t["restarts"], len(t["ev"]), json.dumps(t["kw"], sort_keys=True)[:200]))
-    ex = next((t for t in reversed(good) if t["k"] == "parse" and t["restarts"]), None)
+    ex = next((t for t in reversed(good) if t["k"] == "parse" and t.get("restarts")), None)
     if ex:
         ctx.sample({"code_to_spec": repr(bytes(ex["data"][-60:])), "init": [ex["e0"], ex["c0"]], "events": len(ex["ev"]), "final": [ex["e"], ex["c"]]})
     idx = {id(t): i for i, t in enumerate(good)}
     seen_keys = {}
     for tr, rec in core.validate_traces(ctx, "Trace_Encoding", good, "trace", consts=consts):
         o = gorigin[idx[id(tr)]]
-        case = {"kind": "trace", "trace": tr, "origin": o[0], "verdict": rec}
+        if o[1] is not None:        # the complete input (a trace carries only the first TRACE_DATA_MAX bytes)
+            case = {"kind": "bytes", "data": list(o[1][0]), "labels": o[1][1], "src": o[1][2] if len(o[1]) > 2 else "bytes",
+                    "origin": o[0], "verdict": rec}
+        else:
+            case = {"kind": "trace", "trace": tr, "origin": o[0], "verdict": rec}
         if rec["v"] == "finding":
             for key in rec.get("keys", []):
                 if not ctx.known_finding(key, "deviation %s explains a difference between the code and the intended model" % key,
@@ -730,7 +761,7 @@ def replay(case):
         if tr and "error" not in tr:
             print("replay: code gives   ", {k: tr[k] for k in ("e0", "c0", "skip0", "e", "c", "restarts")})
     elif kind == "bytes":
-        tr = _obs_item((bytes(c["data"]), c.get("labels") or {}))
+        tr = _obs_item((bytes(c["data"]), c.get("labels") or {}, c.get("src", "bytes")))
     elif kind == "extract":
         tr = observe_extract(bytes(c["v"]))
     elif kind == "trace":
@@ -743,7 +774,7 @@ def replay(case):
             for k, _ in KW:
                 v = t["kw"][k]
                 labels[k] = None if v == [-1] else "".join(chr(x) for x in v)
-            tr = _obs_item((bytes(t["data"]), labels))
+            tr = _obs_item((bytes(t["data"]), labels, t.get("src", "bytes")))
     else:
         print("replay data:", {k: v for k, v in c.items()})
         return 1
